@@ -24,6 +24,7 @@ type Case struct {
 	Plan    gen.RowPlan    `json:"plan"`
 	Opts    gen.WriterOpts `json:"opts"`
 	Ops     []gen.Op       `json:"ops"`
+	Enc     int            `json:"enc,omitempty"` // 0 none, 1 encrypted footer, 2 signed plaintext footer
 	Short   bool           `json:"short"`  // failing sink reports io.ErrShortWrite instead of its own error
 	Stride  int            `json:"stride"` // offsets tried: every Stride-th (1 = all)
 	Phase   int            `json:"phase"`
@@ -36,6 +37,7 @@ func genCase(t *rapid.T) Case {
 	c.Plan = gen.Rows(t, &c.Schema, 5, 120, gen.ValueOpts{Style: gen.SmallDom, Leaf: gen.Opts{MaxBytes: 10}})
 	c.Opts = gen.WriterOptions(t, cols, gen.OptsBias{SmallPages: true, EncFor: pq.ValidEncodings, Codecs: []string{"", "snappy"}})
 	c.Ops = gen.WriteOps(t, c.Plan.NumRows())
+	c.Enc = []int{0, 0, 0, 1, 2}[rapid.IntRange(0, 4).Draw(t, "enc")]
 	c.Short = rapid.Bool().Draw(t, "short")
 	c.Stride = kit.Pick([]int{1, 1, 3, 7}, []int{1})[rapid.IntRange(0, kit.Pick(3, 0)).Draw(t, "stride")]
 	c.Phase = rapid.IntRange(0, 6).Draw(t, "phase")
@@ -79,6 +81,9 @@ func writeTo(c Case, cols []ref.Column, rows []parquet.Row, out io.Writer, tmp s
 	}()
 	schema := pq.BuildSchema(&c.Schema)
 	opts := append([]parquet.WriterOption{schema}, pq.Options(c.Opts, cols, tmp)...)
+	if c.Enc != 0 {
+		opts = append(opts, parquet.WithEncryption(&parquet.EncryptionConfig{FooterKey: []byte("0123456789abcdef"), EncryptedFooter: c.Enc == 1, FileIdentifier: []byte("verif-id")}))
+	}
 	w := parquet.NewWriter(out, opts...)
 	werr := pq.ApplyOps(w, rows, c.Ops)
 	cerr := w.Close()
@@ -108,7 +113,7 @@ func boundedStride(c Case, size int) int {
 
 func regionOf(pf *ref.PFile, off int64) string {
 	if pf == nil {
-		return "unknown"
+		return "encrypted-file"
 	}
 	if off < 4 {
 		return "magic"
@@ -150,10 +155,24 @@ func runSink(c Case, o *kit.Obs) *kit.Failure {
 			}
 		}
 	}
-	feat := fmt.Sprintf("{writebuf=%d,pool=%s,defer=%v}", c.Opts.WriteBuf, c.Opts.Pool, c.Opts.DeferBloom)
+	feat := fmt.Sprintf("{writebuf=%d,pool=%s,defer=%v,enc=%d}", c.Opts.WriteBuf, c.Opts.Pool, c.Opts.DeferBloom, c.Enc)
 	regions := map[string]bool{}
 	stride := boundedStride(c, size)
+	var offsets []int
 	for L := c.Phase % stride; L < size; L += stride {
+		offsets = append(offsets, L)
+	}
+	if stride > 1 { // the first and last 16 offsets are always tried (magic, footer length, trailing magic)
+		for L := 0; L < 16 && L < size; L++ {
+			offsets = append(offsets, L)
+		}
+		for L := size - 16; L < size; L++ {
+			if L >= 16 {
+				offsets = append(offsets, L)
+			}
+		}
+	}
+	for _, L := range offsets {
 		s := &sink{limit: L, short: c.Short}
 		err, p := writeTo(c, cols, rows, s, tmp)
 		if p != nil {
@@ -170,14 +189,14 @@ func runSink(c Case, o *kit.Obs) *kit.Failure {
 	if err, p := writeTo(c, cols, rows, s, tmp); err != nil || p != nil {
 		return kit.Failf("c14/sink/spurious-error"+feat, "sink with room for the whole file: err=%v panic=%v", err, p)
 	}
-	if !bytes.Equal(s.buf.Bytes(), clean.Bytes()) {
+	if c.Enc == 0 && !bytes.Equal(s.buf.Bytes(), clean.Bytes()) {
 		return kit.Failf("c14/sink/bytes-differ"+feat, "same history produced different bytes through the counting sink")
 	}
 	for r := range regions {
 		o.Class("sink-region-" + r)
 	}
 	o.ClassIf(stride == 1, "exhaustive-offsets")
-	if len(regions) >= 3 {
+	if len(regions) >= 3 || c.Enc != 0 {
 		o.NonTrivial()
 	}
 	return nil
@@ -186,7 +205,7 @@ func runSink(c Case, o *kit.Obs) *kit.Failure {
 var sinkSpec = &kit.Spec[Case]{
 	Property: "C14",
 	Name:     "sink",
-	Rule: "a small generated file (≤3 leaves, ≤120 rows, all option combinations incl. WriteBufferSize 0/64/1000/default, chunk and file-backed page buffer pools, bloom filters immediate/deferred/gzip, several row groups) " +
+	Rule: "a small generated file (≤3 leaves, ≤120 rows, all option combinations incl. WriteBufferSize 0/64/1000/default, chunk and file-backed page buffer pools, bloom filters immediate/deferred/gzip, several row groups, optionally encrypted with an encrypted or signed plaintext footer) " +
 		"is first written fault-free (size S); then the same Write/Flush/Close history is replayed against a sink that accepts exactly L bytes and then returns (k<len(p), err) with err either its own error or io.ErrShortWrite, " +
 		"for every L < S (or every 3rd/7th in some quick cases; metrics.sink_offsets_tried counts them): some call must return non-nil and nothing may panic; with room for S bytes the result must be nil and byte-identical. " +
 		"Non-trivial = the tried offsets fall in at least 3 of the regions magic / pages / bloom-or-index / footer.",
